@@ -399,7 +399,7 @@ def run(chk):
                 chk.fail("sysargv-not-a-suffix", {"argv": c["argv"]}, repr(ci), "a suffix of the command line", "as above")
 
     # ---- end to end
-    e2e_oracle(chk, 400 if thorough else 36)
+    e2e_oracle(chk, 240 if thorough else 36)
 
 
 def replay(path):
